@@ -57,11 +57,12 @@ class S:
 
 
 class Atom:
-    """Opaque run-time value with an origin."""
-    __slots__ = ('origin',)
+    """Opaque run-time value with an origin; ``nonnull`` when an invariant says it is never None."""
+    __slots__ = ('origin', 'nonnull')
 
-    def __init__(self, origin):
+    def __init__(self, origin, nonnull=False):
         self.origin = origin
+        self.nonnull = nonnull
 
     def __repr__(self):
         return f'<{self.origin}>'
@@ -132,7 +133,9 @@ class Interp:
 
     MAX_PATHS = 512
 
-    def __init__(self, fn, run_attr='run', unroll=(0, 2), resolver=None, module_const=None, max_paths=None):
+    def __init__(self, fn, run_attr='run', unroll=(0, 2), resolver=None, module_const=None, max_paths=None, assume=None):
+        # assume(test node) -> True / False for tests whose outcome is fixed by an invariant established elsewhere, else None
+        self.assume = assume
         # resolver(call) -> (helper FunctionDef, skip_first_param) for private helpers of the same class / module, or None
         # module_const(name) -> expression of a module-level constant, or None
         self.resolver = resolver
@@ -185,13 +188,13 @@ class Interp:
                         if nid == node_id:
                             break
                         d2.setdefault(nid, al[0])
-                    key = tuple(sorted(d2.items(), key=lambda kv: kv[0]))
+                    key = tuple(sorted(d2.items(), key=lambda kv: repr(kv[0])))
                     if key not in seen:
                         seen.add(key)
                         pending.append(d2)
 
     def _decide(self, node, alternatives):
-        k = id(node)
+        k = node if isinstance(node, tuple) else id(node)
         if k in self._decisions:
             return self._decisions[k]
         if not any(k == nid for nid, _ in self._new_decisions):
@@ -298,11 +301,56 @@ class Interp:
             raise AnalysisError(f'assignment target {norm(target)} not understood')
 
     # -- expressions ------------------------------------------------------------
+    def _size_key(self, e):
+        """Key of the decision "how many elements does this collection of unknown size have": the local it is held in
+        (``d``, ``d.items()``, ``list(d.values())`` ... all talk about ``d``), so that an emptiness test and a loop over the
+        same collection agree along one path."""
+        while True:
+            if isinstance(e, ast.Call) and isinstance(e.func, ast.Attribute) and e.func.attr in ('items', 'keys', 'values') and not e.args:
+                e = e.func.value
+            elif isinstance(e, ast.Call) and isinstance(e.func, ast.Name) and e.func.id in ('list', 'tuple', 'set', 'sorted', 'enumerate') and e.args:
+                e = e.args[0]
+            else:
+                break
+        if isinstance(e, ast.Name):
+            return ('size', self.fn.name, self.depth, e.id)
+        return None
+
+    def _unknown_size(self, e, env):
+        """number of elements decided for the collection ``e`` when its size is not known, else None"""
+        k = self._size_key(e)
+        if k is None:
+            return None
+        v = self._try(e, env)
+        if isinstance(v, _Items):
+            v = v.model
+        if isinstance(v, DictModel):
+            if not v.sources:
+                return len(v.entries)
+            return len(v.entries) + len(v.sources) * self._decide(k, list(self.unroll))
+        if isinstance(v, (Atom, Opaque)) and not isinstance(v, S):
+            return self._decide(k, list(self.unroll))
+        return None
+
     def _cond(self, test, env):
         """True/False when decidable, None otherwise."""
+        if self.assume is not None:
+            a_ = self.assume(test)
+            if a_ is not None:
+                return a_
+        # emptiness tests on collections of unknown size: len(X) <op> k, X, not X
+        if isinstance(test, ast.Compare) and len(test.ops) == 1 and isinstance(test.left, ast.Call) and isinstance(test.left.func, ast.Name) and \
+                test.left.func.id == 'len' and len(test.left.args) == 1 and isinstance(test.comparators[0], ast.Constant) and \
+                isinstance(test.comparators[0].value, int):
+            n_ = self._unknown_size(test.left.args[0], env)
+            if n_ is not None:
+                r = test.comparators[0].value
+                return {ast.Gt: n_ > r, ast.Lt: n_ < r, ast.GtE: n_ >= r, ast.LtE: n_ <= r, ast.Eq: n_ == r, ast.NotEq: n_ != r}.get(type(test.ops[0]))
         if isinstance(test, ast.Compare) and len(test.ops) == 1:
             l = self._try(test.left, env)
             r = self._try(test.comparators[0], env)
+            if isinstance(test.ops[0], (ast.Is, ast.IsNot)) and isinstance(r, NoneVal) and isinstance(l, Atom) and l.nonnull:
+                return isinstance(test.ops[0], ast.IsNot)
             if isinstance(l, (int, float)) and isinstance(r, (int, float)):
                 op = test.ops[0]
                 return {ast.Gt: l > r, ast.Lt: l < r, ast.GtE: l >= r, ast.LtE: l <= r,
@@ -312,6 +360,13 @@ class Interp:
             c = self._cond(test.operand, env)
             return None if c is None else (not c)
         v = self._try(test, env)
+        if isinstance(v, _Items):
+            v = v.model
+        if isinstance(v, DictModel):
+            if not v.sources:
+                return len(v.entries) > 0
+            n_ = self._unknown_size(test, env)
+            return None if n_ is None else n_ > 0
         if isinstance(v, list):
             return len(v) > 0
         if isinstance(v, S):
@@ -334,10 +389,11 @@ class Interp:
             return v
         if isinstance(v, tuple):
             return list(v)
+        sk = self._size_key(it)
         if isinstance(v, _Items):
             n = 0
             if v.model.sources:
-                n = self._decide(node, list(self.unroll))
+                n = self._decide(sk or node, list(self.unroll))
             its = v.model.items(n)
             if v.kind == 'items':
                 return [(k, val) for k, val in its]
@@ -345,10 +401,10 @@ class Interp:
                 return [k for k, _ in its]
             return [val for _, val in its]
         if isinstance(v, DictModel):
-            n = self._decide(node, list(self.unroll)) if v.sources else 0
+            n = self._decide(sk or node, list(self.unroll)) if v.sources else 0
             return [k for k, _ in v.items(n)]
         if isinstance(v, (Atom, Opaque)):
-            n = self._decide(node, list(self.unroll))
+            n = self._decide(sk or node, list(self.unroll))
             return [Atom(f'elem-of:{v.origin}') for _ in range(n)]
         if isinstance(v, range):
             return list(v)[:2]
@@ -390,7 +446,7 @@ class Interp:
                 return Atom('attr:self.' + e.attr)
             bv = self._expr(base, env)
             if isinstance(bv, (Atom, Opaque)):
-                return Atom(f'{bv.origin}.{e.attr}')
+                return Atom(f'{bv.origin}.{e.attr}', nonnull=bool(self.assume is not None and self.assume(e)))
             return Opaque('attr')
         if isinstance(e, ast.BinOp):
             l = self._expr(e.left, env)
@@ -604,7 +660,7 @@ class Interp:
                 return a
             if name in ('dict', 'defaultdict'):
                 if not args or name == 'defaultdict':
-                    return DictModel(sources=['local:' + name] if name == 'defaultdict' else [])
+                    return DictModel()       # a locally created dictionary holds exactly what this function stores in it
                 return args[0]
             if name in ('int', 'float', 'repr', 'format'):
                 a = args[0] if args else Opaque(name)
